@@ -197,6 +197,36 @@ Theorem C04_read_back_ptr : forall m objs pads w q ht raw w',
     resolve_ptr (bm_data (w_dst w')) (fst q) (snd q) = (tgt_of ht, pads' ++ [obj_reg ht]) /\
     keeps m (w_dst w') (Rword (fst q) (snd q)) /\
     (forall q', In q' ((0, 0) :: flat_map slots objs) -> ~ (fst q' = fst q /\ snd q' = snd q) ->
-       resolve_ptr (bm_data (w_dst w')) (fst q') (snd q') = resolve_ptr (bm_data m) (fst q') (snd q')).
+       resolve_ptr (bm_data (w_dst w')) (fst q') (snd q') = resolve_ptr (bm_data m) (fst q') (snd q')) /\
+    placed (bm_data (w_dst w')) (fst q) (snd q) (p_seg ht) (obj_start ht) raw (fun i => zlen (mem m i)) pads'.
 Proof. exact hinv_place_full. Qed.
 Print Assumptions C04_read_back_ptr.
+
+From CV Require Import Core.Reader Core.ReadBridge.
+
+(* [T18] ... and the reader model hands back the object: after the pointer setter,
+   Segment.readPtr at the slot returns the handle of exactly the table object that was set (a
+   struct, a list of any kind incl. composite lists through their tag word), with the depth
+   limit one less - for every read limit / depth limit for which it returns a handle at all *)
+Theorem C04_read_back_handle : forall m objs pads w q ht raw w' strict rl depth p rl',
+  w_dst w = m -> hinv m objs pads ->
+  In q ((0, 0) :: flat_map slots objs) -> In ht objs ->
+  (p_kind ht = KStruct -> os_isZero (p_size ht) = false) ->
+  raw_of ht = Ok raw ->
+  place w (fst q) (snd q) (p_seg ht) (obj_start ht) raw = Ok w' ->
+  nsegs (w_dst w') < 4294967296 ->
+  readPtr strict (bm_data (w_dst w')) rl (fst q) (nth (Z.to_nat (fst q)) (bm_data (w_dst w')) []) (snd q) depth = (Ok p, rl') ->
+  p = handle_of ht depth.
+Proof. exact read_after_place. Qed.
+Print Assumptions C04_read_back_handle.
+
+(* [T19] in every state the invariant describes (any later time): Segment.readPtr at any pointer
+   slot of any table object or at the root returns the null handle, the inline empty struct, a
+   handle of a table object, or a capability handle - never anything else *)
+Theorem C04_read_slot : forall strict m objs pads q rl depth p rl',
+  hinv m objs pads -> In q ((0, 0) :: flat_map slots objs) ->
+  readPtr strict (bm_data m) rl (fst q) (nth (Z.to_nat (fst q)) (bm_data m) []) (snd q) depth = (Ok p, rl') ->
+  p = nullPtr \/ p = empty_handle q depth \/ (exists h, In h objs /\ p = handle_of h depth) \/
+  (exists idx, 0 <= idx < 4294967296 /\ p = mkPtr true (fst q) 0 idx (mkOS 0 0) 0 KIface false false false).
+Proof. exact read_slot. Qed.
+Print Assumptions C04_read_slot.
